@@ -282,7 +282,9 @@ PollTransientF(st) == [st EXCEPT !.reachable = FALSE]
 \* (newest IDX_N for the index, newest CACHE_N of those for the cache); tipH = height of the boot tip.
 BootF(db, blocks, tipH) ==
     LET n == Len(blocks)
-    IN [users |-> db.users, appts |-> db.appts, trackers |-> db.trackers, lastKnown |-> db.lastKnown,
+    IN [users |-> db.users, appts |-> db.appts, trackers |-> db.trackers,
+        \* the first bootstrap persists the block it starts from
+        lastKnown |-> IF db.lastKnown = 0 /\ n > 0 THEN blocks[n].id ELSE db.lastKnown,
         gk |-> db.users, gkH |-> tipH, wH |-> tipH, cH |-> tipH,
         wCache |-> IF n <= CACHE_N THEN blocks ELSE SubSeq(blocks, n - CACHE_N + 1, n),
         rIndex |-> blocks, reorged |-> {}, memo |-> {}, reachable |-> TRUE]
